@@ -449,7 +449,7 @@ int main(int argc, char ** argv)
     if (std::string(argv[i]) == "--gb-trace" && i + 1 < argc) gb_out = std::fopen(argv[++i], "w");
     if (std::string(argv[i]) == "--tr-trace" && i + 1 < argc) tr_out = std::fopen(argv[++i], "w");
   }
-  std::set<std::string> ref_bkg_inited;
+  std::set<std::string> ref_bkg_inited, ref_bkg_rejected;
   std::string line;
   while (std::getline(std::cin, line)) {
     if (line.empty() || line[0] == '#') continue;
@@ -515,10 +515,25 @@ int main(int argc, char ** argv)
       }
       if (r.cls == "agree") {
         int rier = 0;
-        size_t used = run_reference(2, name, 0, 0, ref_bkg_inited.count(name) ? 1 : 0, src.log, rier);
-        ref_bkg_inited.insert(name);
+        size_t used = 0;
+        if (ref_bkg_rejected.count(name)) {
+          rier = 1;
+        } else {
+          used = run_reference(2, name, 0, 0, ref_bkg_inited.count(name) ? 1 : 0, src.log, rier);
+          ref_bkg_inited.insert(name);
+          if (rier != 0) ref_bkg_rejected.insert(name);
+        }
         if (rier != 0) {
-          r.cls = "reference-rejects";
+          // a nuclide the reference does not know (port-only): the port's event is still reported
+          r.cls    = "reference-rejects";
+          r.ndraws = src.log.size();
+          r.np     = ev.get_particles().size();
+          r.fp     = std::to_string(std::hash<std::string>()(vh::fingerprint(ev)));
+          for (const auto & e : rec.evs) {
+            if (e.kind != 0 || e.depth > 2 || e.name == "particle" || e.name.compare(0, 7, "scheme:") == 0) continue;
+            if (!r.sig.empty()) r.sig += "|";
+            r.sig += e.name + (e.a.empty() ? "" : ":" + fmt(e.a[0]));
+          }
         } else {
           r.min_margin = min_margin(rec.evs, src.log);
           compare(ev, rec, src, used, r);
